@@ -395,6 +395,9 @@ class CatalogWriter(AbstractContextManager, HandlesDataChunk):
         buffersize:
             Optional, maximum number of records to store in the internal cache
             of each patch writer.
+        num_expected:
+            Optional, the number of patches that must have received data when
+            finalising (patch IDs ``0`` to ``num_expected - 1``).
 
     Attributes:
         cache_directory:
@@ -415,6 +418,7 @@ class CatalogWriter(AbstractContextManager, HandlesDataChunk):
         "_chunk_info",
         "cache_directory",
         "buffersize",
+        "num_expected",
         "writers",
     )
 
@@ -425,8 +429,10 @@ class CatalogWriter(AbstractContextManager, HandlesDataChunk):
         chunk_info: DataChunkInfo,
         overwrite: bool = True,
         buffersize: int = -1,
+        num_expected: int | None = None,
     ) -> None:
         self._chunk_info = chunk_info
+        self.num_expected = num_expected
         self.cache_directory = Path(cache_directory)
         cache_exists = self.cache_directory.exists()
 
@@ -513,6 +519,8 @@ class CatalogWriter(AbstractContextManager, HandlesDataChunk):
             writer.close()
             if writer.num_processed == 0:
                 empty_patches.add(patch_id)
+        if self.num_expected is not None:
+            empty_patches.update(set(range(self.num_expected)) - self.writers.keys())
 
         for patch_id in empty_patches:
             raise ValueError(f"patch with ID {patch_id} contains no data")
@@ -568,6 +576,7 @@ def write_patches_unthreaded(
             chunk_info=reader.copy_chunk_info(drop_patch_ids=True),
             overwrite=overwrite,
             buffersize=buffersize,
+            num_expected=None if patch_centers is None else len(patch_centers),
         ) as writer:
             chunk_iter = Indicator(reader) if progress else iter(reader)
             for chunk in chunk_iter:
@@ -649,6 +658,7 @@ if parallel.use_mpi():
         chunk_info: DataChunkInfo,
         overwrite: bool = True,
         buffersize: int = -1,
+        num_expected: int | None = None,
     ) -> None:
         """A dedicated writer process that recieves a dictionary with patch IDs
         and patch data to write using a :obj:`CatalogWriter`, terminated when
@@ -659,6 +669,7 @@ if parallel.use_mpi():
             chunk_info=chunk_info,
             overwrite=overwrite,
             buffersize=buffersize,
+            num_expected=num_expected,
         ) as writer:
             while (patches := recv(source=MPI.ANY_SOURCE, tag=1)) is not EndOfQueue:
                 writer.process_patches(patches)
@@ -727,6 +738,7 @@ if parallel.use_mpi():
                 chunk_info=reader.copy_chunk_info(drop_patch_ids=True),
                 overwrite=overwrite,
                 buffersize=buffersize,
+                num_expected=None if patch_centers is None else len(patch_centers),
             )
 
         elif rank in worker_config.active_ranks:
@@ -789,6 +801,7 @@ else:
         chunk_info: DataChunkInfo = field(kw_only=True)
         overwrite: bool = field(default=True, kw_only=True)
         buffersize: int = field(default=-1, kw_only=True)
+        num_expected: int | None = field(default=None, kw_only=True)
 
         def __post_init__(self) -> None:
             self.process = multiprocessing.Process(target=self.task)
@@ -806,6 +819,7 @@ else:
                 overwrite=self.overwrite,
                 chunk_info=self.chunk_info,
                 buffersize=self.buffersize,
+                num_expected=self.num_expected,
             ) as writer:
                 while (patches := self.patch_queue.get()) is not EndOfQueue:
                     writer.process_patches(patches)
@@ -892,6 +906,7 @@ else:
                 chunk_info=reader.copy_chunk_info(drop_patch_ids=True),
                 overwrite=overwrite,
                 buffersize=buffersize,
+                num_expected=None if patch_centers is None else len(patch_centers),
             ):
                 chunk_iter = Indicator(reader) if progress else iter(reader)
                 for chunk in chunk_iter:
